@@ -82,6 +82,11 @@ def run(chk):
         fams += list(two_level_circuits())
     else:
         fams += list(two_level_circuits(limit=60))
+    # wide gates of different families over the very same nets (a helper gate shared between them must be of the right family)
+    for fa_, fb_ in (("and", "or"), ("nand", "xor"), ("nor", "and"), ("xnor", "or")):
+        I_ = ("input", [])
+        fams.append((f"same-nets::{fa_}-and-{fb_}", build({"x": I_, "y": I_, "z": I_, "w": I_, "p": (fa_, ["x", "y", "z", "w"]), "q": (fb_, ["x", "y", "z", "w"]), "r": (fa_, ["x", "y", "z"]), "o": ("xor", ["p", "q", "r"])},
+                                                        outputs=["o", "p", "q"])))
     n_eval = 0
     # second pass over the repository's own Circuit class (full stack) for a subset: the transforms' queries and edits then run
     # circuit.py's code instead of the reference model's
@@ -123,6 +128,13 @@ def run(chk):
                 spec[f"l{i}"] = (["and", "or", "xor", "nand", "nor"][i % 5], ["drv", "a" if i % 2 else "b"])
             spec["o"] = ("xor", [f"l{i}" for i in range(nl)])
             fanout_models.append((f"fanout::{dname}-drives-{nl}" + ("-and-is-an-output" if as_out and dname != "input" else ""), build(spec, outputs=["o"] + (["drv"] if as_out and dname != "input" else []))))
+    # blackbox input pins are loads like any other: one net on the clock pin of five flops (and on a gate)
+    ffm_ = RefBlackBox("ff", ["clk", "d"], ["q"])
+    spec = {"ck": ("input", []), "a": ("input", []), "b": ("input", []), "en": ("and", ["ck", "a"])}
+    for i in range(5):
+        spec.update({f"r{i}.clk": ("bb_input", ["ck"]), f"r{i}.d": ("bb_input", ["a" if i % 2 else "b"]), f"r{i}.q": ("bb_output", []), f"q{i}": ("buf", [f"r{i}.q"])})
+    spec["o"] = ("xor", [f"q{i}" for i in range(5)] + ["en"])
+    fanout_models.append(("fanout::net-on-the-clock-pin-of-five-flops", build(spec, outputs=["o"], blackboxes={f"r{i}": ffm_ for i in range(5)})))
     for kname, c, caller in [(k_, c_, P) for k_, c_ in fams + fanout_models] + fs_subset + [(f"{k_}@full-stack", c_, FS) for k_, c_ in fanout_models[::3]]:
         if max(len(c.fanout(n)) for n in c.nodes()) < 3 and not kname.startswith(("fanout", "reconv", "wide")):
             continue
